@@ -173,6 +173,64 @@ def history_bu(rng, p, nrounds=None):
     return lines
 
 
+def add_relays(rng, p):
+    """Make some readers of generated resources depend on the generator only TRANSITIVELY: `req w` in front of a read of
+    what `w` generates becomes `req relay` where the relay task statically requires `w` first and returns its output
+    (relays may be shared between readers, and chained).  The programs stay free of hidden dependencies in every state
+    (the path reader -> relay -> ... -> w is static); they are no longer direct-require programs (static roles)."""
+    n = max(p.tasks)
+    nxt = [n + 1]
+    shared = {}
+
+    def relay_for(w):
+        if w in shared and rng.random() < 0.6: return shared[w]
+        r = nxt[0]; nxt[0] += 1
+        inner = w
+        if rng.random() < 0.25:               # chain of two relays
+            r2 = nxt[0]; nxt[0] += 1
+            p.tasks[r2] = ("req", w, 0, ("ret", ("v", 0)))
+            inner = r2
+        p.tasks[r] = ("req", inner, 0, ("ret", ("v", 0)))
+        shared[w] = r
+        return r
+
+    def reads(s, acc):
+        k = s[0]
+        if k == "read": acc.add(s[1]); reads(s[3], acc)
+        elif k == "req": reads(s[3], acc)
+        elif k in ("write", "wrote"): reads(s[4], acc)
+        elif k == "if": reads(s[2], acc); reads(s[3], acc)
+        return acc
+
+    def repl(s, m):
+        k = s[0]
+        if k == "req": return ("req", m.get(s[1], s[1]), s[2], repl(s[3], m))
+        if k == "read": return ("read", s[1], s[2], repl(s[3], m))
+        if k in ("write", "wrote"): return (k, s[1], s[2], s[3], repl(s[4], m))
+        if k == "if": return ("if", s[1], repl(s[2], m), repl(s[3], m))
+        return s
+    for t in sorted(p.tasks):
+        if t > n: continue
+        ws = {p.generated[g] for g in reads(p.tasks[t], set()) if g in p.generated and p.generated[g] != t}
+        m = {w: relay_for(w) for w in sorted(ws) if rng.random() < 0.6}
+        if m: p.tasks[t] = repl(p.tasks[t], m)
+    return p
+
+
+def case_td_relay(rng):
+    while True:
+        p = gen_program(rng, exact=rng.random() < 0.5)
+        if p.generated: break
+    return add_relays(rng, p).lines() + history_td(rng, p)
+
+
+def case_bu_relay(rng):
+    while True:
+        p = gen_program(rng, exact=rng.random() < 0.5)
+        if p.generated: break
+    return add_relays(rng, p).lines() + history_bu(rng, p)
+
+
 def case_td(rng, exact=False):
     p = gen_program(rng, exact=exact)
     return p.lines() + history_td(rng, p)
